@@ -132,6 +132,12 @@ Definition sel_after (c : cmdk) (arg : N) (r : res) (old : option (N * bool)) : 
   | _, _ => old
   end.
 
+(* a LOGIN that is answered NO before it reaches the failure counter and the jail wait: only if some path of
+   handleLogin / GetState / getUserID returns early (fact login_reaches_counter_on_every_path = false); the name 0 / the
+   password 0 stand for the empty string *)
+Definition short_circuit (name pass : N) : bool :=
+  (negb login_reaches_counter_on_every_path && ((name =? 0) || (pass =? 0)))%bool.
+
 Definition mk_state (u : N) (s : option (N * bool)) : pstate :=
   match s with Some (m, ro) => PSel u m ro | None => PAuth u end.
 
@@ -201,6 +207,7 @@ Section Server.
              (store_set (g_stores g) u (heff (e_cmd e) (e_arg e) sel s)) (g_fails g) (g_jail g),
          r, e_time e)
     | DLoginAttempt =>
+        if short_circuit (e_name e) (e_pass e) then (g, RNo, e_time e) else
         let auth := authorize (e_name e) (e_pass e) in
         let '(f, j, r, t) := login_step (g_fails g) (g_jail g) (e_time e)
                                         (match auth with Some _ => true | None => false end) in
